@@ -88,6 +88,29 @@ def run(ctx, chk):
                 chk.violation("C14.entropy", f"{fi.qualname}: {name} is an entropy/clock source "
                               "outside the seeded generator", "", loc)
     chk.floor("C14.entropy", n_np, 12, "np.random call sites")
+    # ---- arbitrary-element picks from a hash-ordered set: set.pop(), next(iter(set)), list(set)[i]
+    for fi in repo.all_functions():
+        if not in_scope(fi.module):
+            continue
+        for n in ast.walk(fi.node):
+            pick = None
+            if isinstance(n, ast.Call) and isinstance(n.func, ast.Attribute) \
+                    and n.func.attr == "pop" and not n.args and ot.kind(fi, n.func.value) == HASH:
+                pick = f"{ast.unparse(n.func.value)}.pop()"
+            if isinstance(n, ast.Call) and isinstance(n.func, ast.Name) and n.func.id == "next" \
+                    and n.args and isinstance(n.args[0], ast.Call) \
+                    and isinstance(n.args[0].func, ast.Name) and n.args[0].func.id == "iter" \
+                    and n.args[0].args and ot.kind(fi, n.args[0].args[0]) == HASH:
+                pick = ast.unparse(n)
+            if isinstance(n, ast.Subscript) and isinstance(n.ctx, ast.Load) \
+                    and isinstance(n.value, ast.Call) and isinstance(n.value.func, ast.Name) \
+                    and n.value.func.id in ("list", "tuple") and n.value.args \
+                    and ot.kind(fi, n.value.args[0]) == HASH:
+                pick = ast.unparse(n)
+            if pick:
+                chk.violation("C14.hash-order", f"{fi.qualname}: {pick} takes an arbitrary element of "
+                              "a hash-ordered set", "which element is taken depends on PYTHONHASHSEED, "
+                              "not on the seeded generator", f"{fi.module.path}:{n.lineno}")
     # ---- loops over hash-ordered iterables that draw or fill ordered containers
     for fi in repo.all_functions():
         if not in_scope(fi.module):
